@@ -312,7 +312,7 @@ class CheckC01(Check):
                   "minimised explicit histories")
     oracles = (C01,)
     judged = {"C01"}
-    sizes = {"quick": 18000, "thorough": 400000}
+    sizes = {"quick": 12000, "thorough": 400000}
     chunk = 40
     rule = ("seeded swarm over algorithm x partition x box x parameters x reward program x RNG policy x T<=n, within the provisos "
             "of the statement (depth caps that hold the budget); a run is non-trivial if it completed >= 10 rounds and made >= 1 "
@@ -554,7 +554,7 @@ class CheckC08(Check):
     judged = {"C08"}
     adopt = {("C04", "credit-set", "SOO"): "evaluated-twice", ("C04", "credit-set", "DOO"): "evaluated-twice",
              ("C04", "credit-set", "StoSOO"): "over-k", ("C04", "credit-value", "StoSOO"): "over-k"}
-    sizes = {"quick": 6000, "thorough": 100000}
+    sizes = {"quick": 5000, "thorough": 100000}
     chunk = 40
     technique = ("deterministic simulation: nondeterministic specification of the optimistic sweep evaluated on shadow state (ledger + "
                  "shadow tree) at every expansion and every hand-out")
@@ -583,7 +583,7 @@ class CheckC12(Check):
     judged = {"C12"}
     # a reward booked on another cell than the one handed out means some search cell is evaluated twice (or never)
     adopt = {("C04", "credit-set", "SequOOL"): "evaluated-twice", ("C04", "credit-value", "SequOOL"): "evaluated-twice"}
-    sizes = {"quick": 12000, "thorough": 300000}
+    sizes = {"quick": 8000, "thorough": 300000}
     chunk = 50
     technique = ("deterministic simulation: opening-schedule specification evaluated on shadow state at every expansion and every round")
     level_text = ("every opening (depth order, per-depth budget floor(h_max/h), best unopened cell, children evaluated once and in order) and "
@@ -608,7 +608,7 @@ class CheckC07(Check):
     design_ref = "DESIGN.md 5.7"
     oracles = (StopOutsideProviso, Ledger, C07)
     judged = {"C07"}
-    sizes = {"quick": 10000, "thorough": 300000}
+    sizes = {"quick": 8000, "thorough": 300000}
     chunk = 50
     technique = ("deterministic simulation: the simulated client's ledger of (cell, point, reward) versus the recommendation, under "
                  "sign/tie reward adversaries and short runs")
